@@ -226,3 +226,14 @@ CHECKS["C11"] = dict(
     units=[dict(pkg="silence", test="TestVerifC11Silences", shards_quick=8, shards_thorough=16, budget_quick=100, budget_thorough=1500),
            dict(pkg="nflog", test="TestVerifC11Nflog", shards_quick=8, shards_thorough=16, budget_quick=100, budget_thorough=1500)],
 )
+
+CHECKS["C19"] = dict(
+    level="model_checking",
+    engine="seqx",
+    rule="bus: all event sequences up to the completed depth over 24 events {create small / oversized / threshold-straddling silence, nflog entry, gossip rounds with loss and duplication (one real GetBroadcasts call each), reliable links down/up, push/pull, join, 6 kinds of garbage} on 3-4 nodes made of the real delegate, TransmitLimitedQueue, Channels, silence.Silences and nflog.Log, followed by a closing phase (links up, fresh small+oversized update per node, gossip until drained, then push/pull). mesh: real memberlist over an in-memory network (see C08). states = distinct observation classes; transitions = events",
+    technique="bounded-exhaustive event-sequence exploration of the real gossip delegate/channel code with an explorer-controlled message bus",
+    level_text="After every event no node has lost or regressed an update, holds only updates some node made, and garbage (truncated, bit-flipped, unknown key, empty, malformed part inside a full state) changes nothing and does not block the valid parts; in the closing phase every fresh update (small by gossip, oversized by reliable send) reaches every connected node without push/pull, and after push/pull every node - including a late joiner - holds everything.",
+    level_note="memberlist is replaced by the harness in this part: Peer.AddState's closures are restated in harness/cluster/busnode.go (send is identical; peers/sendOversize are injected). The mesh part (C08/C19-mesh) runs the real memberlist and the real AddState.",
+    assumptions=E1_ASSUME,
+    units=[dict(pkg="app", test="TestVerifC19Bus", shards_quick=16, shards_thorough=16, budget_quick=100, budget_thorough=1500)],
+)
